@@ -84,14 +84,11 @@ theorem iter_append (p : Padder) (hB : p.blocksize = 512 ∨ p.blocksize = 1024)
     congr 1; rw [Nat.add_mul (n + 1) k]; omega
   simp only [hpf] at hst
   rw [hst]
-  have hbc : st.bitcnt + (n + 1 + k) * p.blocksize = st.bitcnt + (n + 1) * p.blocksize + k * p.blocksize := by
-    rw [Nat.add_mul (n + 1) k]; omega
-  simp only [hbc]
   cases p.lastblock { bitcnt := st.bitcnt + (n + 1) * p.blocksize + k * p.blocksize, padcnt := st.padcnt } (p.blockAt b k) none with
-  | error e => simp [List.append_assoc, hpf]
+  | error e => simp [Padder.finishTail, List.append_assoc, hpf]
   | ok r =>
     obtain ⟨npi, st2⟩ := r
-    simp only []
+    simp only [Padder.finishTail]
     split <;> simp [List.append_assoc, hpf]
 
 end Proofs.Lemmas.BlakePieces
